@@ -326,6 +326,221 @@ def run_shared(plan, world):
     return outs
 
 
+# ---------------------------------------------------------------------------------------------------------------------
+# seed VALUES (round 4): the boundary values of the seed domain (every non-negative integer is a seed), neighbouring large
+# seeds, and the forms a caller may hold one seed value in
+ENTRY_POINTS = ("finite:plain", "finite:sh", "infinite:vk", "infinite:fried")
+
+FIXED_SEED_VALUES = [0, 1, 2, 255, 256, 2 ** 31 - 1, 2 ** 31, 2 ** 32 - 1, 2 ** 32, 2 ** 32 + 1, 2 ** 53 - 1, 2 ** 53, 2 ** 53 + 1,
+                     2 ** 53 + 2, 2 ** 63 - 2, 2 ** 63 - 1, 2 ** 63, 2 ** 64 - 2, 2 ** 64 - 1, 2 ** 64, 2 ** 64 + 1, 2 ** 100 + 1,
+                     2 ** 100 + 2, 2 ** 128 - 1, 2 ** 128]
+
+
+def vclass(v):
+    """size class of a seed value (part of the failure keys)"""
+    if v <= 1:
+        return str(int(v))
+    for b in (32, 53, 63, 64, 128, 1024):
+        if v < 2 ** b:
+            return "<2^%d" % b
+    return ">=2^1024"
+
+
+def battery_values(rng, quick):
+    """seed values: the fixed boundary values, two consecutive time.time_ns()-like stamps, and for random bit lengths a random
+    value, its successor and the value with ONE other bit flipped (seeds that differ only in a low or only in a high bit)"""
+    t = rng.randint(1_600_000_000, 1_900_000_000) * 10 ** 9 + rng.randrange(10 ** 9)
+    vals = list(FIXED_SEED_VALUES) + [t, t + 1]
+    ranges = ((54, 63), (65, 128), (1025, 1100)) if quick else ((2, 31), (33, 53), (54, 63), (64, 64), (65, 128), (129, 512), (1025, 1100))
+    for lo, hi in ranges:
+        b = rng.randint(lo, hi)
+        v = rng.getrandbits(b) | (1 << (b - 1))
+        vals += [v, v + 1, v ^ (1 << rng.randrange(b - 1))]
+    return sorted(set(vals))
+
+
+def seed_forms(v):
+    """the forms one seed VALUE can be handed over in (all accepted by numpy.random.default_rng)"""
+    forms = ["int"]
+    if v <= 1:
+        forms.append("bool")
+    for name, bound in (("uint8", 2 ** 8), ("int32", 2 ** 31), ("uint32", 2 ** 32), ("int64", 2 ** 63), ("uint64", 2 ** 64)):
+        if v < bound:
+            forms.append(name)
+    if v < 2 ** 64:
+        forms.append("array")
+    return forms + ["list", "words", "seedseq", "generator"]
+
+
+def present(v, form):
+    """a NEW seed object of the given form for the value v (a Generator is consumed by the call it is passed to)"""
+    if form == "int":
+        return int(v)
+    if form == "bool":
+        return bool(v)
+    if form in ("uint8", "int32", "uint32", "int64", "uint64"):
+        return getattr(numpy, form)(v)
+    if form == "array":
+        return numpy.array([v], dtype=numpy.uint64)
+    if form == "list":
+        return [int(v)]
+    if form == "words":
+        return [(v >> (32 * i)) & 0xffffffff for i in range(max(1, (int(v).bit_length() + 31) // 32))]
+    if form == "seedseq":
+        return numpy.random.SeedSequence(int(v))
+    if form == "generator":
+        return numpy.random.default_rng(int(v))
+    raise ValueError(form)
+
+
+def numpy_stream(obj):
+    """which random stream NumPy itself derives from a seed object: two seed objects are 'the same seed' exactly if NumPy's
+    default_rng starts them in the same generator state (0, numpy.uint8(0), [0], SeedSequence(0) ... are one seed; 2**53 and
+    2**53+1 are two)"""
+    return json.dumps(numpy.random.default_rng(obj).bit_generator.state, sort_keys=True, default=str)
+
+
+def ep_params(rng, ep):
+    if ep.startswith("finite"):
+        return {"N": rng.choice([4, 5, 8]), "r0": rng.choice([0.1, 0.15, 0.3]), "delta": rng.choice([0.02, 0.05, 0.1]),
+                "L0": rng.choice([5., 20., 100.]), "l0": rng.choice([0.001, 0.01])}
+    return {"nx": rng.choice([4, 6, 7]), "px": rng.choice([0.05, 0.1]), "r0": rng.choice([0.1, 0.16]), "L0": rng.choice([10., 25.]),
+            "ncol": 2, "slf": rng.choice([2, 4])}
+
+
+def ep_make(ep, par, seed):
+    from aotools.turbulence import infinitephasescreen as ips
+    if ep == "infinite:vk":
+        return ips.PhaseScreenVonKarman(par["nx"], par["px"], par["r0"], par["L0"], random_seed=seed, n_columns=par["ncol"])
+    return ips.PhaseScreenKolmogorov(par["nx"], par["px"], par["r0"], par["L0"], random_seed=seed, stencil_length_factor=par["slf"])
+
+
+def ep_outputs(ep, par, seed, rows=2):
+    """the screens one use of an entry point returns: the finite screen, or the initial infinite screen and the screen after each
+    of `rows` added rows"""
+    from aotools.turbulence import phasescreen
+    if ep.startswith("finite"):
+        f = phasescreen.ft_sh_phase_screen if ep == "finite:sh" else phasescreen.ft_phase_screen
+        return [numpy.array(f(par["r0"], par["N"], par["delta"], par["L0"], par["l0"], seed=seed), copy=True)]
+    s = ep_make(ep, par, seed)
+    out = [numpy.array(s.scrn, copy=True)]
+    for _ in range(rows):
+        s.add_row()
+        out.append(numpy.array(s.scrn, copy=True))
+    return out
+
+
+def perturb(rng, n):
+    """unrelated activity between two seeded calls: global seeding / draws, other library calls, unseeded and seeded screens"""
+    r = rng.randrange(7)
+    if r == 0:
+        numpy.random.seed(rng.randint(0, 10 ** 6))
+    elif r == 1:
+        pyrandom.seed(n)
+        numpy.random.normal(size=2)
+    elif r == 2:
+        finite_call({"sh": bool(n % 2), "seed": None, "N": 4, "r0": .15, "delta": .05, "L0": 20., "l0": .01})
+    elif r == 3:
+        finite_call({"sh": bool(n % 2), "seed": rng.randint(0, 3), "N": 4, "r0": .15, "delta": .05, "L0": 20., "l0": .01})
+    elif r == 4:
+        other_call(n % 5)
+
+
+def seed_value_battery(chk, ep, par, values, all_forms):
+    """every seed value in int form, again in other forms (all forms for 0 and 1; one random other form, or all, for the rest),
+    evaluated in random order with unrelated activity in between.  Same NumPy stream => bit-identical outputs; different NumPy
+    streams => different screens."""
+    import hashlib
+    rng = chk.rng
+    plan = []
+    for v in values:
+        forms = seed_forms(v)
+        extra = forms[1:] if (all_forms or v <= 1) else [rng.choice(forms[1:])]
+        plan += [(v, "int")] + [(v, f) for f in extra]
+        if ep.startswith("finite"):
+            plan.append((v, "int"))                     # the very same call once more
+    rng.shuffle(plan)
+    by_stream, by_first = {}, {}
+    failed = set()
+    for n, (v, form) in enumerate(plan):
+        perturb(rng, n)
+        try:
+            stream = numpy_stream(present(v, form))
+        except Exception:
+            chk.count("seed-battery:form-rejected-by-numpy:" + form)      # not a seed for NumPy: outside the domain
+            continue
+        chk.count("seed-battery:%s:%s" % (ep, vclass(v)))
+        chk.count("seed-battery:form:" + form)
+        rep = {"entry": ep, "params": par, "seed": str(v), "form": form}
+        try:
+            outs = ep_outputs(ep, par, present(v, form))
+        except Exception as ex:
+            key = "raises:%s:seed-class:%s:%s" % (ep, vclass(v), type(ex).__name__)
+            if key not in failed:
+                failed.add(key)
+                chk.fail(key, "%s raised %r for the seed %d (given as %s), which numpy.random.default_rng accepts" % (ep, ex, v, form), rep)
+            continue
+        d_all = hashlib.sha256(b"".join(numpy.ascontiguousarray(a).tobytes() for a in outs)).hexdigest()
+        d_first = outs[0].tobytes()
+        if stream in by_stream:
+            d0, v0, f0 = by_stream[stream]
+            if d0 != d_all:
+                key = "repro:%s:seed-class:%s" % (ep, vclass(v))
+                if key not in failed:
+                    failed.add(key)
+                    chk.fail(key, "%s: the seed %d given as %s and the same seed %d given as %s (one and the same NumPy stream) gave "
+                             "different screens" % (ep, v0, f0, v, form), dict(rep, other_seed=str(v0), other_form=f0))
+        else:
+            by_stream[stream] = (d_all, v, form)
+        if d_first in by_first and by_first[d_first][0] != stream:
+            _, v0, f0 = by_first[d_first]
+            key = "seeds-differ:%s:seed-class:%s" % (ep, vclass(max(v, v0)))
+            if key not in failed:
+                failed.add(key)
+                chk.fail(key, "%s: the different seeds %d (%s) and %d (%s) gave bit-identical screens" % (ep, v0, f0, v, form),
+                         dict(rep, other_seed=str(v0), other_form=f0))
+        by_first.setdefault(d_first, (stream, v, form))
+    return len(plan)
+
+
+def unseeded_ensemble(chk, ep, par, n, n_ctor):
+    """n unseeded uses of one entry point with the same parameters: all screens pairwise different (bytes hashed).  With OS
+    entropy a duplicate has probability < 1e-30; a seed drawn from a small pool, a clock or a global generator shows up as
+    duplicates.  Second half: NumPy's and the stdlib's global generators are put into the SAME state before every call; every
+    64th call is preceded by a seeded call of the same entry point (an unseeded call must not continue a stream a seeded call
+    left behind).  Infinite screens: n_ctor constructions, each followed by unseeded make_initial_screen() calls."""
+    seen, dups, first = {}, 0, None
+    inst, count = None, 0
+    per_inst = max(1, n // max(1, n_ctor))
+    for k in range(n):
+        if k >= n // 2:
+            numpy.random.seed(4321)
+            pyrandom.seed(4321)
+        if k % 64 == 0:
+            ep_outputs(ep, par, 7, rows=0)
+        if ep.startswith("finite"):
+            a = ep_outputs(ep, par, None)[0]
+        elif inst is None or count >= per_inst:
+            inst, count = ep_make(ep, par, None), 1
+            a = numpy.array(inst.scrn, copy=True)
+        else:
+            inst.make_initial_screen()
+            count += 1
+            a = numpy.array(inst.scrn, copy=True)
+        b = a.tobytes()
+        if b in seen:
+            dups += 1
+            first = first or (seen[b], k)
+        else:
+            seen[b] = k
+    chk.count("unseeded-ensemble:%s" % ep, n)
+    if dups:
+        chk.fail("unseeded-equal:ensemble:%s" % ep, "among %d unseeded %s screens with the same parameters %d are bit-identical copies of an "
+                 "earlier one (first: call %d and call %d)" % (n, ep, dups, first[0], first[1]),
+                 {"entry": ep, "params": par, "n": n, "first_duplicate": list(first), "duplicates": dups,
+                  "constructions": n_ctor if ep.startswith("infinite") else None})
+
+
 def model_line(cfgs, ops):
     toks = []
     for op in ops:
@@ -364,9 +579,19 @@ def run(chk):
                 "infinite screens must differ from each other with the global generators in the same state; "
                 "correspondence = touch set per operation (which generators changed state) model vs real; oracle = bitwise equality of "
                 "each instance's outputs with its isolated replay, of reproductions with each other, of seeded finite screens; "
-                "distinct = distinct (configuration, operation list)")
+                "distinct = distinct (configuration, operation list); seed values: per entry point (plain / sub-harmonic finite screen, von Karman / "
+                "Fried infinite screen incl. two added rows) the boundary values 0, 1, 2, 2^8, 2^31, 2^32, 2^53, 2^63, 2^64, 2^100, 2^128 (+-1/2), two "
+                "consecutive nanosecond time stamps and, for random bit lengths up to 1100, a value, its successor and the value with one bit "
+                "flipped, each as Python int and in other forms (bool, NumPy integer scalars, one-element array, list, list of 32-bit words, "
+                "SeedSequence, private Generator), evaluated in random order with unrelated activity in between: seed objects that NumPy starts "
+                "in the same generator state must give bit-identical screens, all others different ones (all pairs); unseeded ensembles: 3000 / "
+                "1500 / 2000 / 2000 unseeded screens per entry point with equal parameters (10x in the thorough tier), all pairwise different")
     chk.assumptions = ["'different seeds give different screens' and 'unseeded calls differ from each other' are sampled, not proved "
                        "(PCG64 / SeedSequence injectivity, OS entropy)",
+                       "which seed objects denote the same seed is taken from NumPy: those that numpy.random.default_rng starts in the same generator "
+                       "state (0 = numpy.uint8(0) = False = [0] = SeedSequence(0); 2^32 = [0, 1]); any two in different states count as different seeds",
+                       "a bit-identical pair among n unseeded screens is reported as a violation: with the 128 bits of OS entropy default_rng() takes, "
+                       "its probability on correct code is below n^2 * 2^-129 (< 1e-29 for n = 30000)",
                        "numpy.random.default_rng(seed) / Generator.normal are deterministic functions of seed / state",
                        "the touch sets are observed through the instance's numpy Generator attribute (`_R`, or the single Generator found among "
                        "the instance attributes if it is renamed); if none can be found this is reported as broken correspondence, not as a violation",
@@ -538,6 +763,29 @@ def run(chk):
         k = {"sh": sh, "seed": None, "N": 8, "r0": .15, "delta": .05, "L0": 20., "l0": .01}
         if finite_call(k).tobytes() == finite_call(k).tobytes():
             chk.fail("unseeded-equal:finite", "two unseeded finite screens are identical", {"call": k})
+    # seed values: boundary values of the seed domain, neighbouring large seeds, one value in every form (round 4)
+    for ep in ENTRY_POINTS:
+        for k in range(1 if quick else (5 if ep.startswith("finite") else 3)):
+            par = ep_params(chk.rng, ep)
+            values = battery_values(chk.rng, quick)
+            chk.oracle_cases += 1
+            chk.case(("seed-battery", ep, json.dumps(par, sort_keys=True), [str(v) for v in values]),
+                     sample={"entry": ep, "params": par, "seeds": [str(v) for v in values[:6]] + ["..."] + [str(v) for v in values[-3:]]}
+                     if ep == "infinite:vk" and k == 0 else None)
+            seed_value_battery(chk, ep, par, values, all_forms=(not quick) or ep.startswith("finite"))
+    # unseeded ensembles: all pairwise different (round 4)
+    for ep, nq, nt in (("finite:plain", 3000, 30000), ("finite:sh", 1500, 10000), ("infinite:vk", 2000, 20000), ("infinite:fried", 2000, 20000)):
+        par = ep_params(chk.rng, ep)
+        if ep.startswith("finite"):
+            par["N"] = 4
+        else:
+            par["nx"] = 4
+        chk.oracle_cases += 1
+        chk.case(("unseeded-ensemble", ep, json.dumps(par, sort_keys=True)))
+        try:
+            unseeded_ensemble(chk, ep, par, nq if quick else nt, 25 if quick else 200)
+        except Exception as ex:
+            chk.fail("raises:unseeded-ensemble:%s:%s" % (ep, type(ex).__name__), "unseeded %s raised %r" % (ep, ex), {"entry": ep, "params": par})
     # correspondence of the touch sets
     try:
         ans = common.run_driver(lines, "C06")
